@@ -157,17 +157,9 @@ async fn serve(listener: TcpListener, c: Case, log: Arc<Mutex<ServerLog>>) {
             let _ = sock.write_all(&out).await;
         }
         let _ = sock.flush().await;
-        if c.reply == Reply::Code {
-            // a refusing server does not start TLS; it keeps listening for whatever the client sends next
-            proceed = false;
-            let mut tmp = [0u8; 2048];
-            loop {
-                match tokio::time::timeout(Duration::from_millis(300), sock.read(&mut tmp)).await {
-                    Ok(Ok(n)) if n > 0 => continue,
-                    _ => break,
-                }
-            }
-        }
+        // A server that refuses StartTLS (non-zero code) nevertheless stands ready to do a TLS
+        // handshake if the client (wrongly) starts one: a client that ignores the result code must
+        // not end up with a handle. A correct client just closes, which ends the accept at once.
     }
     if !proceed {
         if c.reply == Reply::Garbage {
@@ -193,7 +185,8 @@ async fn serve(listener: TcpListener, c: Case, log: Arc<Mutex<ServerLog>>) {
             return;
         }
     };
-    match tokio::time::timeout(Duration::from_secs(10), acc.accept(sock)).await {
+    let hs_guard = if c.scheme == Scheme::StartTls && c.reply == Reply::Code { Duration::from_millis(1500) } else { Duration::from_secs(10) };
+    match tokio::time::timeout(hs_guard, acc.accept(sock)).await {
         Ok(Ok(mut tls)) => {
             log.lock().unwrap().handshake_done = true;
             let mut buf = Vec::new();
@@ -331,7 +324,7 @@ pub fn cells() -> Vec<(Scheme, Verify, Cert, Reply, Post)> {
         for cert in [Cert::Good, Cert::WrongName, Cert::SelfSigned, Cert::Expired] {
             for reply in [Reply::Success, Reply::Code, Reply::NonExtended] {
                 for post in [Post::Proper, Post::HandshakeGarbage, Post::InjectThenProper] {
-                    if reply == Reply::Code && post != Post::Proper {
+                    if reply == Reply::Code && post == Post::HandshakeGarbage {
                         continue;
                     }
                     v.push((Scheme::StartTls, verify, cert, reply, post));
@@ -381,6 +374,14 @@ fn lane_run(ctx: &Ctx, known: &[KnownFinding]) -> LaneReport {
             };
             let t0 = std::time::Instant::now();
             eval_case(&mut rep, known, &c, |obs| check(&c, obs));
+            // result-code sweep: every non-zero code class must refuse, also when the server would handshake
+            if *scheme == Scheme::StartTls && *reply == Reply::Code && *post == Post::Proper && *verify == Verify::Disabled && *cert == Cert::Good && round == 0 {
+                for rc in [1u32, 2, 3, 4, 5, 6, 7, 8, 10, 11, 12, 13, 14, 16, 32, 48, 49, 50, 51, 52, 53, 54, 80, 88, 118, 123, 4096, 65536] {
+                    let mut c2 = c.clone();
+                    c2.rc = rc;
+                    eval_case(&mut rep, known, &c2, |obs| check(&c2, obs));
+                }
+            }
             if std::env::var("VERIF_C17_TIMING").is_ok() {
                 eprintln!("{:6.0} ms {:?} {:?} {:?} {:?} {:?}", t0.elapsed().as_secs_f64() * 1000.0, c.scheme, c.verify, c.cert, c.reply, c.post);
             }
@@ -401,7 +402,7 @@ pub fn property() -> Property {
     Property {
         id: "C17",
         level: "fault_enumeration",
-        rule: "EXHAUSTIVE product of scheme {ldap+StartTLS, ldaps} x verification {default trust store, no_tls_verify, custom connector trusting the test CA} x server certificate {CA-signed for localhost/127.0.0.1, CA-signed for another name, self-signed, expired} x StartTLS reply {success, non-zero code, garbage then close, close, well-formed non-extended response} x post-reply behaviour {proper handshake, handshake garbage, forged cleartext LDAP responses for the next message ids in the same segment as the StartTLS response then a proper handshake} (132 cells), each with generated parameters (result code, garbage bytes, forged PDU kind, host spelling, server write segmentation); thorough repeats the product 12 times with fresh parameters. The harness's server (tokio + native-tls acceptor, committed test PKI) records every raw byte it receives. Oracle: cleartext holds exactly one StartTLS ExtendedRequest (or nothing on ldaps) and otherwise only TLS records; establishment returns Ok only if the reply was a success, the handshake completed on the server and the certificate is acceptable under the effective settings (and must return Ok when all of that holds for a real StartTLS success); after Ok a bind is received inside TLS, returns the token sent inside TLS (never the forged cleartext one) and its password never appears in the raw log. Non-trivial: every cell (each contains an adversarial or trust-decision element); distinct = cell + parameters.",
+        rule: "EXHAUSTIVE product of scheme {ldap+StartTLS, ldaps} x verification {default trust store, no_tls_verify, custom connector trusting the test CA} x server certificate {CA-signed for localhost/127.0.0.1, CA-signed for another name, self-signed, expired} x StartTLS reply {success, non-zero code (after which the server still stands ready for a handshake, so a client that ignores the code is exposed), garbage then close, close, well-formed non-extended response} x post-reply behaviour {proper handshake, handshake garbage, forged cleartext LDAP responses for the next message ids in the same segment as the StartTLS response then a proper handshake} (144 cells) plus a sweep of 28 non-zero StartTLS result codes (incl. 5, 6, 10, 14) on the cell where everything else would succeed, each with generated parameters (result code, garbage bytes, forged PDU kind, host spelling, server write segmentation); thorough repeats the product 12 times with fresh parameters. The harness's server (tokio + native-tls acceptor, committed test PKI) records every raw byte it receives. Oracle: cleartext holds exactly one StartTLS ExtendedRequest (or nothing on ldaps) and otherwise only TLS records; establishment returns Ok only if the reply was a success, the handshake completed on the server and the certificate is acceptable under the effective settings (and must return Ok when all of that holds for a real StartTLS success); after Ok a bind is received inside TLS, returns the token sent inside TLS (never the forged cleartext one) and its password never appears in the raw log. Non-trivial: every cell (each contains an adversarial or trust-decision element); distinct = cell + parameters.",
         assumptions: &[
             "real sockets and wall time: verdicts are functions of the cell, timing is never borderline (guards of 10-20 s yield an env-* failure = inconclusive)",
             "only the default tls-native backend (OpenSSL) is exercised; the test CA is not in the system trust store, so 'default' verification must refuse every test certificate",
